@@ -426,8 +426,8 @@ func init() {
 		Control{Name: "tag-name-runs-over-form-feed", Props: []string{"C17"}, File: "parse_html.go",
 			Old: "\t\tif !isASCIILetter(b[i]) && !isASCIIDigit(b[i]) && b[i] != '-' {\n\t\t\treturn i\n\t\t}\n\t}\n\treturn len(b)\n}\n\nfunc parseHTMLAttribute", New: "\t\tif isSpaceTabOrLineEnding(b[i]) || b[i] == '/' || b[i] == '>' {\n\t\t\treturn i\n\t\t}\n\t}\n\treturn len(b)\n}\n\nfunc parseHTMLAttribute", Expect: "TAGNAME-SET/htmlTagNameEnd"},
 		Control{Name: "neg-tag-end-search-in-helper", Props: []string{"C17", "C04"}, File: "html_renderer.go", Negative: true,
-			Old: "\t\t\t\t\ttagEnd := len(rawHTML)\n\t\t\t\t\tif j := bytes.IndexByte(rawHTML[tagNameStart:], '>'); j >= 0 {\n\t\t\t\t\t\ttagEnd = tagNameStart + j + len(\">\")\n\t\t\t\t\t}\n",
-			New: "\t\t\t\t\ttagEnd := tagNameStart + rawTagLen(rawHTML[tagNameStart:])\n",
+			Old:   "\t\t\t\t\ttagEnd := len(rawHTML)\n\t\t\t\t\tif j := bytes.IndexByte(rawHTML[tagNameStart:], '>'); j >= 0 {\n\t\t\t\t\t\ttagEnd = tagNameStart + j + len(\">\")\n\t\t\t\t\t}\n",
+			New:   "\t\t\t\t\ttagEnd := tagNameStart + rawTagLen(rawHTML[tagNameStart:])\n",
 			Edits: [][2]string{{"func appendAltText(", "func rawTagLen(b []byte) int {\n\tif j := bytes.IndexByte(b, '>'); j >= 0 {\n\t\treturn j + 1\n\t}\n\treturn len(b)\n}\n\nfunc appendAltText("}}},
 		Control{Name: "neg-tag-open-test-as-switch", Props: []string{"C17", "C04"}, File: "html_renderer.go", Negative: true,
 			Old: "\treturn isASCIILetter(c) || c == '/' || c == '!' || c == '?'", New: "\tswitch {\n\tcase 'a' <= c && c <= 'z', 'A' <= c && c <= 'Z':\n\t\treturn true\n\tcase c == '/', c == '!', c == '?':\n\t\treturn true\n\t}\n\treturn false"},
